@@ -27,16 +27,28 @@ CInit ==
     open |-> {},             \* ids of API operations that have not returned
     faulty |-> {},           \* clients whose transport was made to fail (C15 driver)
     cause |-> "",            \* termination cause injected by the fault-sweep driver ("" = none)
+    now |-> 0,               \* record counter (a clock for the interval clauses of C19)
+    opStart |-> EmptyFn,     \* API operation id -> time it started
+    truth |-> <<>>,          \* C19: the objects the churn role holds: sequence of [u, cookie, svcs]
+    dspec |-> <<>>,          \* C19: entry specifications of the discoverers: sequence of [key, obj, svcs]
+    dlast |-> EmptyFn,       \* C19: <<task, key, object uuid>> -> TRUE if the last event was "created"
+    dying |-> {},            \* C19: cookies whose destruction has begun
+    born |-> EmptyFn,        \* C19: cookie -> time the creating call started
+    died |-> EmptyFn,        \* C19: cookie -> time the destroying call returned
+    foundEarly |-> {},       \* C19: cookies found before the creating call had returned
     quiescent |-> FALSE ]
 
 Bad(S, p, w) == IF S.ok THEN [S EXCEPT !.ok = FALSE, !.prop = p, !.why = w] ELSE S
 
 StartsWith(s, p) == Len(s) >= Len(p) /\ SubSeq(s, 1, Len(p)) = p
 
+SeqToSet(q) == {q[i] : i \in 1..Len(q)}
+
 OnApi(S, r) ==
-  IF r.ph = "start" THEN [S EXCEPT !.open = @ \cup {r.id}]
+  IF r.ph = "start" THEN [S EXCEPT !.open = @ \cup {r.id}, !.opStart = Put(@, r.id, S.now)]
   ELSE
-    LET S1 == [S EXCEPT !.open = @ \ {r.id}] IN
+    LET S1 == [S EXCEPT !.open = @ \ {r.id}]
+        started == IF r.id \in DOMAIN S.opStart THEN S.opStart[r.id] ELSE 0 IN
     CASE r.op = "call" /\ r.res \in {"ok", "errval"} ->
            \* C06: the value computed for that very call
            IF r.d.rt # r.d.t THEN Bad(S1, "C06", "a call returned the reply of another call")
@@ -50,7 +62,38 @@ OnApi(S, r) ==
                want == IF k \in DOMAIN S1.nextItem THEN S1.nextItem[k] ELSE 1 IN
            IF r.d.k # want THEN Bad(S1, "C05", "a channel item was lost, duplicated or reordered")
            ELSE [S1 EXCEPT !.nextItem = Put(@, k, want + 1)]
+      [] r.op = "create_object" /\ r.res = "ok" /\ "cookie" \in DOMAIN r.d ->
+           [S1 EXCEPT !.born = Put(@, r.d.cookie, started), !.foundEarly = @ \ {r.d.cookie}]
+      [] r.op = "destroy_object" /\ "cookie" \in DOMAIN r.d -> [S1 EXCEPT !.died = Put(@, r.d.cookie, S.now)]
+      [] r.op = "lifetime_ended" ->
+           \* C19: a lifetime never resolves while its scope is alive
+           IF r.d.cookie \notin S1.dying THEN Bad(S1, "C19", "a lifetime resolved although its scope had not begun to end")
+           ELSE S1
+      [] r.op \in {"wait_for_object", "find_object"} /\ r.res = "ok" ->
+           \* C19: the object returned existed at some point during the wait
+           \* (the creating call may return after the object became visible to others)
+           IF r.d.cookie \notin DOMAIN S1.born THEN [S1 EXCEPT !.foundEarly = @ \cup {r.d.cookie}]
+           ELSE IF S1.born[r.d.cookie] > S.now THEN Bad(S1, "C19", "an object was found before it was created")
+           ELSE IF r.d.cookie \in DOMAIN S1.died /\ S1.died[r.d.cookie] < started
+             THEN Bad(S1, "C19", "an object was found that had been destroyed before the search began")
+           ELSE S1
       [] OTHER -> S1
+
+\* C19: the discoverer's final view against the truth
+ViewCheck(S, r) ==
+  LET specOf(key) == S.dspec[CHOOSE i \in 1..Len(S.dspec) : S.dspec[i].key = key]
+      expected(key) == {<<o.u, o.cookie>> : o \in {o \in SeqToSet(S.truth) :
+                           /\ (specOf(key).obj = 0 \/ specOf(key).obj = o.u)
+                           /\ SeqToSet(specOf(key).svcs) \subseteq SeqToSet(o.svcs)}}
+      actual(e) == {<<x.u, x.cookie>> : x \in SeqToSet(e.objs)}
+      wrong == {i \in 1..Len(r.d.entries) : actual(r.d.entries[i]) # expected(r.d.entries[i].key)}
+      \* the event stream ends in the state the view shows
+      incons == {i \in 1..Len(r.d.entries) : \E k \in DOMAIN S.dlast :
+                   k[1] = r.task /\ k[2] = r.d.entries[i].key /\
+                   S.dlast[k] # (\E x \in SeqToSet(r.d.entries[i].objs) : x.u = k[3])}
+  IN IF wrong # {} THEN Bad(S, "C19", "a discoverer entry does not report exactly the matching objects that exist")
+     ELSE IF incons # {} THEN Bad(S, "C19", "the discoverer's events do not lead to the state it reports")
+     ELSE S
 
 OnFact(S, r) ==
   CASE r.what = "served" -> [S EXCEPT !.served = Put(@, r.d.t, [n |-> r.d.n, how |-> r.d.how])]
@@ -62,12 +105,23 @@ OnFact(S, r) ==
          ELSE IF ~r.d.all /\ r.d.ev # r.d.sub THEN Bad(S, "C04", "a subscriber received an event id it did not subscribe to")
          ELSE IF r.d.k <= last THEN Bad(S, "C04", "a subscriber received an event twice or out of order")
          ELSE [S EXCEPT !.lastEv = Put(@, key, r.d.k)]
+    [] r.what = "truth" -> [S EXCEPT !.truth = r.d.objs]
+    [] r.what = "dentries" -> [S EXCEPT !.dspec = r.d.entries]
+    [] r.what = "destroying" -> [S EXCEPT !.dying = @ \cup {r.d.cookie}]
+    [] r.what = "devent" ->
+         \* C19: created / destroyed alternate per entry and object, starting with created
+         LET key == <<r.task, r.d.key, r.d.u>>
+             last == IF key \in DOMAIN S.dlast THEN S.dlast[key] ELSE FALSE IN
+         IF r.d.created = last THEN Bad(S, "C19", "the discoverer emitted two created or two destroyed events in a row for one object")
+         ELSE [S EXCEPT !.dlast = Put(@, key, r.d.created)]
+    [] r.what = "dview" -> ViewCheck(S, r)
     [] OTHER -> S
 
-CStep(S, r) ==
+CStep(S0, r) ==
   IF r.t = "reset" THEN CInit
-  ELSE IF ~S.ok THEN S
-  ELSE CASE r.t = "api" -> OnApi(S, r)
+  ELSE IF ~S0.ok THEN S0
+  ELSE LET S == [S0 EXCEPT !.now = @ + 1] IN
+       CASE r.t = "api" -> OnApi(S, r)
     [] r.t = "fact" -> OnFact(S, r)
     [] r.t = "tap" ->
          \* C12: a payload delivered to a client is in the encoding epoch of its negotiated version
@@ -100,6 +154,7 @@ CStep(S, r) ==
          \* (DESIGN 2.5), so the idle shutdown cannot complete in that case
          ELSE IF r.broker # "done" /\ S.cause # "dropconn" THEN Bad(S, "C06", "the broker asked to stop when idle did not stop after all clients were gone")
          ELSE IF S.open # {} THEN Bad(S, "C15", "an operation was still pending at the end")
+         ELSE IF S.foundEarly # {} THEN Bad(S, "C19", "an object was found that nobody created")
          ELSE S
     [] OTHER -> S
 =============================================================================
